@@ -25,6 +25,9 @@ Decides (from the syntax trees of auth/auth/*.py and hailtop/config/deploy_confi
       a basis for a verdict.
   R4  DeployConfig.external_url returns `<scheme>s://<non-empty authority>...` on every return, so the list of valid netlocs never contains the
       empty string (otherwise `/\\evil.com`, netloc '', would be accepted)
+Refactor-robustness: module-level helpers that run the validator themselves (`next_page = _validated_next_page_from_query(request)`) are inlined into
+their callers; a value is followed through copies / `a or default` selections, and validating any holder of the value validates it; the validator may
+be called with a keyword argument; accumulator / search loops in the validator are read as the comprehension / any() they compute.
 Does not decide: browser-vs-urlparse differentials for values whose netloc IS an exact member of the allow-list (e.g. exotic schemes).
 """
 from __future__ import annotations
